@@ -15,17 +15,21 @@ Definition fuel : nat := 8.
 
 (* end-to-end leg. verdict: 0 = the new program was rejected before validation (parser/checker),
    1 = the validator ran (obs = its errors; [] = update accepted).
-   vals: (value stored under the old version, the part of it that the inspection under the new
+   vals: (Some (value stored under the old version) when [old] is the version it was written under,
+   None for the later steps of an update history, the part of it that the inspection under the new
    version can reach = without fields the new version no longer declares, result of the
    inspection: true = every read succeeded and returned what was stored). *)
 Definition check_e2e (c : acct_names * ext_confs * program * program * Z * list code3
-                          * list (value * value * bool)) : bool :=
+                          * list (option value * value * bool)) : bool :=
   let '(acct, xc, old, new, verdict, obs, vals) := c in
   if verdict =? 0 then true
   else
     wf_scope acct old && wf_scope acct new
     && list_eqb code3_eqb (map uerr_code (validate acct old new)) obs
-    && forallb (fun vb => wf_value acct xc fuel old (fst (fst vb))) vals
+    && forallb (fun vb => match fst (fst vb) with
+                          | Some full => wf_value acct xc fuel old full
+                          | None => true
+                          end) vals
     && match obs with
        | [] => forallb (fun vb => Bool.eqb (usable acct xc fuel old new (snd (fst vb))) (snd vb)) vals
        | _ => true
